@@ -26,10 +26,47 @@ def actions(sysm):
   return acts
 
 
+def multi_actions(sysm):
+  """Reduced alphabet over several studies (different owners, ids that differ only by a SQL LIKE wildcard or by case)."""
+  cfg = sysm.cfg
+  canon = sysm.canons()[0]
+  acts = []
+  for s in cfg['studies']:
+    st = lifecycle.study_of(canon, s)
+    acts.append(('CreateStudy', s))
+    if st is None:
+      continue
+    ts = lifecycle.trials_of(canon, s) or []
+    ids = [int(t['id']) for t in ts]
+    acts.append(('DeleteStudy', s))
+    acts.append(('ListTrials', s))
+    if len(ts) < cfg['max_trials']:
+      acts.append(('CreateTrial', s, 'requested', 0.25))
+      acts.append(('SuggestTrials', s, 'a', 1))
+    else:
+      sysm.pruned += 2
+    for i in ids[:1]:
+      acts.append(('GetTrial', s, i))
+      acts.append(('CompleteTrial', s, i, 'final'))
+      acts.append(('DeleteTrial', s, i))
+      if not [t for t in ts if t['id'] == str(i)][0]['md']:
+        acts.append(('UpdateMetadata', s, ((i, '', 'k', 'v-' + s),)))
+    if not st['md']:
+      acts.append(('UpdateMetadata', s, ((None, '', 'k', 'v-' + s),)))
+  for ow in sorted({'owners/' + svc_owner(s) for s in cfg['studies']}):
+    acts.append(('ListStudies', ow))
+  return acts
+
+
+def svc_owner(s):
+  from vfw import svc
+  return svc.owner_of(s)
+
+
 def system(cfg):
   k = repr(sorted(cfg.items()))
   if k not in _SYS:
-    _SYS[k] = lifecycle.ServiceSystem('C07', cfg, actions)
+    _SYS[k] = lifecycle.ServiceSystem(cfg.get('pid', 'C07'), cfg, multi_actions if cfg.get('multi') else actions)
   return _SYS[k]
 
 
@@ -39,10 +76,16 @@ def expand(task):
 
 def run(ctx):
   base = {'backends': ['ram', 'sqlmem', 'sqlfile'], 'model': False, 'max_trials': 2, 'max_meas': 1, 'max_ops': 2, 'max_id': 3}
+  # several studies: two owners with the same study id; ids that differ by a LIKE wildcard ('_', '%') or by case only
+  multi = {'backends': ['ram', 'sqlmem'], 'model': False, 'multi': True, 'max_trials': 1, 'max_id': 2, 'clients': ('a',)}
   if ctx.quick:
-    plans = [(base, 4)]
+    plans = [(base, 4),
+             (dict(multi, studies=('s_1', 'sx1', 'p@s_1')), 5),
+             (dict(multi, studies=('S%', 's1', 'p@S%')), 4)]
   else:
-    plans = [(dict(base, max_trials=3, max_meas=2, max_ops=3, max_id=5), 6)]
+    plans = [(dict(base, max_trials=3, max_meas=2, max_ops=3, max_id=5), 6),
+             (dict(multi, studies=('s_1', 'sx1', 'p@s_1'), backends=['ram', 'sqlmem', 'sqlfile'], max_trials=2, max_id=3), 7),
+             (dict(multi, studies=('S%', 's1', 'p@S%', 'p@s1'), max_trials=2, max_id=3), 6)]
   cov = {'states': 0, 'transitions': 0, 'traces_validated_against_impl': 0, 'samples': [], 'runs': [], 'exhaustive': True}
   for cfg, depth in plans:
     s = statespace.Search(ctx, 'expand', depth, cfg, chunk=8)
